@@ -83,6 +83,26 @@ def on_create_and_on_data_contracts():
              note="traffic and liveness of a circuit are only ever credited for cells authenticated by that circuit's keys")
 
     # ---------------------------------------------------------------------------------------------------------------------
+    # a new own circuit never takes the id of a live one (however often the random draw collides): loop with an invariant
+    contract(f"{TC}::TunnelCommunity._generate_circuit_id", "_generate_circuit_id.never-an-id-in-use",
+             vars={"hc1": HOP(), "self": COMMUNITY()}, call="self._generate_circuit_id()", raises=[],
+             loops={f"{TC}::TunnelCommunity._generate_circuit_id#0": {"invariants": ["0 <= circuit_id < 2 ** 32"], "havoc": {"circuit_id": INT}}},
+             ensures=["result not in self.circuits", "0 <= result < 2 ** 32", "same_keys(self.circuits, old(keys_snapshot(self.circuits)))"],
+             note="the id handed to create_circuit is free in the table of own circuits")
+
+    # the outside sockets of an exit entry are opened by exit traffic only (exit_data, after the previous-hop check) - a keep-alive ping
+    # refreshes the entry's liveness and is answered, nothing else
+    contract(f"{TC}::TunnelCommunity.on_ping", "on_ping.only-refreshes-liveness",
+             vars={"hc1": HOP(), "self": COMMUNITY(), "src": ADDRESS,
+                   "payload": OBJ(f"{PL}::PingPayload", circuit_id=RANGE(0, 2 ** 32 - 1), identifier=INT),
+                   "H": EXPR(f"undecorated({TCLS}, 'on_ping')")},
+             call="H(self, src, payload, None)", raises=[],
+             stubs={f"{TC}::TunnelCommunity.send_cell": {"event": "send_cell", "note": "pong (C04/C02)"}},
+             ensures=["len(calls('enable')) == 0 and len(calls('sendto')) == 0", "len(calls('send_cell')) <= 1",
+                      "same_keys(self.exit_sockets, old(keys_snapshot(self.exit_sockets)))"],
+             note="a ping never enables an exit socket")
+
+    # ---------------------------------------------------------------------------------------------------------------------
     # joining: the new exit entry is bound to the node the CREATE actually came from (the key in a CREATE is not authenticated: whatever
     # the peer graph knows about that key - another address, a stale one - must not decide where this circuit's replies are sent)
     KNOWN = PEER_OBJ()
